@@ -188,6 +188,9 @@ M = [
  ('m_c11_usercompletion', 'C11', 'cylc/flow/task_outputs.py',
   "    completion = tdef.rtconfig.get('completion')\n    if completion:",
   "    completion = tdef.rtconfig.get('completion')\n    if False:"),
+ ('m_c01_family_any', 'C01', 'cylc/flow/graph_parser.py',
+  "        QUAL_FAM_SUCCEED_ANY: (TASK_OUTPUT_SUCCEEDED, False),",
+  "        QUAL_FAM_SUCCEED_ANY: (TASK_OUTPUT_SUCCEEDED, True),"),
  ('m_c09_started_back', 'C09', 'cylc/flow/task_events_mgr.py',
   "            if flag == self.FLAG_RECEIVED and itask.state.is_gt(\n                TASK_STATUS_RUNNING\n            ):\n                # Already running.\n                return True",
   "            if False:\n                # Already running.\n                return True"),
